@@ -1,5 +1,6 @@
 from __future__ import annotations
 
+import codecs
 import logging
 import os
 import pathlib
@@ -130,9 +131,16 @@ class SourceFile:
         self.replacements: list[Replacement] = []
         self.filename = filename
         self.source = self.filename.read_text("utf-8")
+        # a byte order mark is no part of the python code
+        # (it is not counted in the positions of the ast-nodes and tokens)
+        self.bom = self.source.startswith("\ufeff")
+        if self.bom:
+            self.source = self.source[1:]
 
     def rewrite(self):
         new_code = self.new_code().encode()
+        if self.bom:
+            new_code = codecs.BOM_UTF8 + new_code
 
         # the new code is written into a temporary file, which replaces the old file.
         # An error or a crash can not leave a half written file.
@@ -171,6 +179,9 @@ class SourceFile:
         # newline="" preserves the line endings (\r\n) of the file
         with open(self.filename, encoding="utf-8", newline="") as file:
             code = file.read()
+
+        if code.startswith("\ufeff"):
+            code = code[1:]
 
         format_whole_file = enforce_formatting() or code == format_code(
             code, self.filename
